@@ -34,8 +34,8 @@ from .common import Collector, TmpDir
 _SEQS = ["ACGT", "A", "GATTACA", "CC", "TGCAT", "ACGTACGTAC"]
 _QUALS = ["IIII", "!", "@+I5#~A", "+@", "5555I", "ABCDEFGHIJ"]     # legal quality strings may start with '@' or '+'
 _CHROMS = ["chr1", "chr2", "chr10", "chrX_alt", "c", "chr1"]
-_STARTS = ["1", "300", "5", "77777", "0", "42"]
-_STOPS = ["20", "4000", "6", "88888", "9", "100"]
+_STARTS = ["1", "300", "77777", "5", "0", "42"]
+_STOPS = ["20", "4000", "88888", "6", "9", "100"]
 _NAMES = ["a", "bb", "ccc", "d", "ee", "f"]
 _SCORES = ["0", "10", "255", "7", "1000", "3"]
 _STRANDS = ["+", "-", ".", "+", "-", "+"]
